@@ -39,7 +39,7 @@ func init() {
 		},
 		MinEvals: 100,
 		Plan: func(tier string) []fw.ChildSpec {
-			y := []string{"VERIF_YIELD=udp.loop.send=0.2:150,udp.close=0.3:300"}
+			y := []string{"VERIF_YIELD=udp.loop.send=0.2:150,udp.close=0.3:300,udp.idle=0.5:1500"}
 			if tier == "thorough" {
 				return []fw.ChildSpec{
 					{Name: "scen", Mode: "scen", Shards: 8, Timeout: 40 * time.Minute, Env: y},
@@ -129,7 +129,7 @@ var sizeChoices = []int{9, 10, 64, 1200, 2048, 2049, 8999, 9000}
 func genScenario(seed int64, i int) *Scenario {
 	r := fw.Rand(seed, "c09", i)
 	s := &Scenario{Index: i}
-	s.Handler = []string{"rec", "rec", "rec", "echo", "nomatch", "closeself", "proxy"}[r.Intn(7)]
+	s.Handler = []string{"rec", "rec", "rec", "echo", "nomatch", "closeself", "proxy", "readclose", "readclose"}[r.Intn(9)]
 	s.EndAfter = []int{0, 1, 3, 7, 0}[r.Intn(5)]
 	s.DelayUs = []int{0, 0, 100, 1500}[r.Intn(4)]
 	s.BufSize = []int{9000, 9000, 1000, 64}[r.Intn(4)]
@@ -217,7 +217,7 @@ func routesFor(s *Scenario) string {
 		return fmt.Sprintf(`[{"handle":[{"handler":"proxy","upstreams":[{"dial":["udp/%s"]}]}]}]`, startUDPEcho())
 	}
 	return drive.J([]any{map[string]any{"handle": []any{map[string]any{"handler": "verif_udp", "name": "u", "end_after": s.EndAfter,
-		"delay_us": s.DelayUs, "bufsize": s.BufSize, "close_self": s.Handler == "closeself"}}}})
+		"delay_us": s.DelayUs, "bufsize": s.BufSize, "close_self": s.Handler == "closeself", "read_close": s.Handler == "readclose"}}}})
 }
 
 var addrSeq int
@@ -309,7 +309,7 @@ func runScenario(c *fw.Ctx, s *Scenario) {
 	// delivery oracle (recording handlers)
 	delivered := 0
 	orderSig := ""
-	if s.Handler == "rec" || s.Handler == "closeself" {
+	if s.Handler == "rec" || s.Handler == "closeself" || s.Handler == "readclose" {
 		seen := map[[2]int]int{}
 		for k, rec := range recs {
 			streams := map[int][]byte{}
@@ -330,6 +330,21 @@ func runScenario(c *fw.Ctx, s *Scenario) {
 				}
 			}
 			orderSig += compress(kinds) + "|"
+			// a client has at most one open virtual connection at a time: a new one may only start after the
+			// previous one ended (idle expiry, which notifies early by design, does not occur in these short runs)
+			open := map[int]bool{}
+			for _, e := range rec.Events() {
+				switch e.Kind {
+				case "udp-start":
+					for a := range open {
+						report("overlapping-associations", fmt.Sprintf("client %d: association %d started while association %d of the same client was still open; the client's datagrams are now split between two live connections", k, e.N, a), nil)
+						break
+					}
+					open[e.N] = true
+				case "udp-end":
+					delete(open, e.N)
+				}
+			}
 			for _, a := range assocOrder {
 				ds, bad := parseStream(streams[a])
 				if bad != "" {
@@ -401,7 +416,7 @@ func runScenario(c *fw.Ctx, s *Scenario) {
 	}
 
 	// fresh association after an ended one
-	if (s.Handler == "rec" || s.Handler == "closeself") && s.EndAfter > 0 {
+	if (s.Handler == "rec" || s.Handler == "closeself" || s.Handler == "readclose") && s.EndAfter > 0 {
 		for k, rec := range recs {
 			ended := map[int]bool{}
 			for _, e := range rec.Events() {
@@ -447,7 +462,7 @@ func runScenario(c *fw.Ctx, s *Scenario) {
 					endedAt[e.N] = e.Seq
 				}
 				if e.Kind == "udp-read" {
-					if t, ok := endedAt[e.N]; ok && e.Seq > t {
+					if t, ok := endedAt[e.N]; ok && e.Seq > t && s.Handler != "readclose" { // (readclose marks the end just before closing while its reader still runs)
 						report("read-after-end", fmt.Sprintf("association %d of client %d read a datagram after it had ended", e.N, k), nil)
 					}
 				}
